@@ -58,10 +58,14 @@ func (i *distanceHitIterator) findNext() {
 			break
 		}
 
-		if p1+i.distance < p2 {
+		// want is where i2 has to be. Computed in 64 bits: a corrupt posting
+		// list can hold values close to MaxUint32, and a wrapped-around sum
+		// would make this loop spin without advancing either iterator.
+		want := uint64(p1) + uint64(i.distance)
+		if want < uint64(p2) {
 			i.i1.next(p2 - i.distance - 1)
-		} else if p1+i.distance > p2 {
-			i.i2.next(p1 + i.distance - 1)
+		} else if want > uint64(p2) {
+			i.i2.next(uint32(min(want-1, math.MaxUint32)))
 		} else {
 			break
 		}
